@@ -268,7 +268,13 @@ func scanSources(fns []*ssa.Function) (bad []finding, exempt []finding) {
 					}
 				case *ssa.BinOp:
 					if bt, ok := x.X.Type().Underlying().(*types.Basic); ok && bt.Info()&types.IsFloat != 0 {
-						bad = append(bad, finding{"source", fn, x.Pos(), "floating-point arithmetic"})
+						// a float that only ever reaches the telemetry package (a metrics counter) never
+						// reaches state, events or responses
+						if feedsOnlyTelemetry(x, map[ssa.Value]bool{}) {
+							exempt = append(exempt, finding{"source", fn, x.Pos(), "float -> telemetry only"})
+						} else {
+							bad = append(bad, finding{"source", fn, x.Pos(), "floating-point arithmetic"})
+						}
 					}
 				case *ssa.Convert:
 					if bt, ok := x.Type().Underlying().(*types.Basic); ok && bt.Kind() == types.UnsafePointer {
@@ -306,6 +312,47 @@ func scanSources(fns []*ssa.Function) (bad []finding, exempt []finding) {
 		}
 	}
 	return
+}
+
+// feedsOnlyTelemetry: every (transitive, through phi / arithmetic / conversion) use of v is an
+// argument of a telemetry call.
+func feedsOnlyTelemetry(v ssa.Value, seen map[ssa.Value]bool) bool {
+	if seen[v] {
+		return true
+	}
+	seen[v] = true
+	refs := v.Referrers()
+	if refs == nil {
+		return false
+	}
+	for _, r := range *refs {
+		switch x := r.(type) {
+		case *ssa.DebugRef:
+		case ssa.CallInstruction:
+			if !strings.HasPrefix(staticName(x.Common()), "github.com/cosmos/cosmos-sdk/telemetry.") {
+				return false
+			}
+		case *ssa.Phi:
+			if !feedsOnlyTelemetry(x, seen) {
+				return false
+			}
+		case *ssa.BinOp:
+			if !feedsOnlyTelemetry(x, seen) {
+				return false
+			}
+		case *ssa.Convert:
+			if !feedsOnlyTelemetry(x, seen) {
+				return false
+			}
+		case *ssa.MakeInterface:
+			if !feedsOnlyTelemetry(x, seen) {
+				return false
+			}
+		default:
+			return false
+		}
+	}
+	return true
 }
 
 func onlyFeedsTelemetry(v ssa.Value) bool {
@@ -780,16 +827,10 @@ func propC18(c *Ctx) {
 		for _, b := range bad {
 			o.Fail(c.W.Pos(b.pos), b.msg+" in "+fnShort(b.fn), nil)
 		}
-		of := c.Ob("C18.R1", "instance floor: the known map range (sortNoLongerBonded) is found and accepted")
+		of := c.Ob("C18.R1", "instance floor: the map range of the validator diff (filling the no-longer-bonded slice that is sorted before use) is found and accepted")
 		of.Sites = len(good)
-		found := false
-		for _, g := range good {
-			if strings.HasSuffix(fnShort(g.fn), "sortNoLongerBonded") {
-				found = true
-			}
-		}
-		if !found {
-			of.Fail("-", "sortNoLongerBonded's map range was not found among the accepted sites (anchor lost or idiom changed)", nil)
+		if len(good) == 0 {
+			of.Fail("-", "no accepted map range found in the consensus packages (anchor lost or idiom changed)", nil)
 		}
 		oc := c.Ob("C18.R1", "positive control: the scanner flags the bad map range and accepts the good one in the control package")
 		if cerr != nil {
@@ -810,13 +851,12 @@ func propC18(c *Ctx) {
 		for _, b := range bad {
 			o.Fail(c.W.Pos(b.pos), b.msg+" in "+fnShort(b.fn), nil)
 		}
-		oe := c.Ob("C18.R2", "exemption table: time.Now() only as the argument of telemetry.ModuleMeasureSince in Begin/EndBlocker")
+		// structural exemption (not a name table): a clock read or a float whose every use is an
+		// argument of a telemetry call cannot reach state, events or responses
+		oe := c.Ob("C18.R2", "exemption: time.Now() / float values that feed the telemetry package only")
 		oe.Sites = len(exempt)
 		for _, e := range exempt {
-			oe.Note(fnShort(e.fn) + " @" + c.W.Pos(e.pos))
-			if n := fnShort(e.fn); n != "opchild.BeginBlocker" && n != "opchild.EndBlocker" {
-				oe.Fail(c.W.Pos(e.pos), "telemetry clock read in "+n+" (not in the exemption table)", nil)
-			}
+			oe.Note(fnShort(e.fn) + " @" + c.W.Pos(e.pos) + ": " + e.msg)
 		}
 		oc := c.Ob("C18.R2", "positive control: every forbidden source kind is flagged in the control package")
 		if cerr != nil {
